@@ -34,8 +34,8 @@ const (
 )
 
 var (
-	ebValues  = []uint64{2, 3, 5}
-	etsValues = []uint64{1, 2, 3}
+	ebValues  = []uint64{2, 3, 5, 9}
+	etsValues = []uint64{1, 2, 3, 7}
 )
 
 type opdef struct {
